@@ -82,6 +82,15 @@ def exportedList : List DTree → List DTree
 end
 
 mutual
+/-- `datatype.unit` (datatypes.py:207; 806-808: an array has the unit of its member type) -/
+def unitOf : DTree → Option PVal
+  | node k p cs _ => if k == "array" then unitOfHead cs else p.get? "unit"
+def unitOfHead : List DTree → Option PVal
+  | [] => none
+  | c :: _ => unitOf c
+end
+
+mutual
 /-- `set_main_unit` (datatypes.py:209, 872, 949): `$` in every unit below is replaced -/
 def mainUnit (repl : PVal → PVal) : DTree → DTree
   | node k p cs ms => node k (p.map (fun kv => if kv.1 == "unit" then (kv.1, repl kv.2) else kv)) (mainUnits repl cs) ms
